@@ -85,10 +85,31 @@ def run(ctx, gen_status):
             ctx.fail('epsilon-not-min-over-orders', 'get_epsilon = %r, min over orders of the conversion formula = %r' % (e, want), c)
         elif e < want - 1e-9:
             ctx.fail('epsilon-under-reported', 'reported %r < %r' % (e, want), c)
+    reuse_cases(ctx, ctx.n(8, 100))
+
+
+def reuse_cases(ctx, n):
+    """never under-report also through an accountant OBJECT that was queried before and then given another history"""
+    r = ctx.rng
+    cases = []
+    for _ in range(n):
+        k = r.randint(2, 4)
+        h1 = [[r.choice([0.7, 1.1, 1.5, 2.5]), r.choice([0.01, 0.02]), r.randint(5, 300)] for _ in range(k)]
+        h2 = [[r.choice([0.7, 1.1, 1.5, 2.5]), r.choice([0.01, 0.02]), r.randint(5, 300)] for _ in range(k + r.randint(0, 1))]
+        cases.append({'kind': 'reuse', 'acc': 'rdp', 'h1': h1, 'h2': h2, 'd1': 1e-5, 'via': r.choice(['load', 'assign']), 'more': r.choice([0, 5])})
+    res = vlib.run_impl('acc_meta.py', {'cases': cases})['results']
+    for c, rr in zip(cases, res):
+        ctx.case(c, kind='reused-accountant')
+        if rr.get('error'):
+            ctx.fail('rdp-harness-error', rr['error'], c)
+        elif rr['b'] < rr['a'] - 1e-9 * (1 + abs(rr['a'])) or rr['b2'] < rr['a2'] - 1e-9 * (1 + abs(rr['a2'])):
+            ctx.fail('epsilon-under-reported', 'a re-used RDPAccountant reports %r (then %r) for a history whose epsilon is %r (then %r)' % (rr['b'], rr['b2'], rr['a'], rr['a2']), c)
+        elif abs(rr['b'] - rr['a']) > 1e-9 * (1 + abs(rr['a'])) or abs(rr['b2'] - rr['a2']) > 1e-9 * (1 + abs(rr['a2'])):
+            ctx.fail('epsilon-not-a-function-of-history', 'a re-used RDPAccountant reports %r / %r, a fresh one %r / %r' % (rr['b'], rr['b2'], rr['a'], rr['a2']), c)
 
 
 def search(ctx):
-    return
+    reuse_cases(ctx, 20)
 
 
 def replay_case(ctx, failure):
